@@ -8,6 +8,9 @@
  *          n  vorbisfile, streaming (seek_func = tell_func = NULL)
  *          p  packet-level API: raw libogg sync/stream loop + vorbis_synthesis*, fed through the same
  *             scripted read callback (asks 4096 bytes per read, like examples/decoder_example.c)
+ *          any path may carry "@<k>" (s@58): the first k bytes of the file are handed over as already-read data - the
+ *          `initial`/`ibytes` arguments of ov_open_callbacks (path p: one ogg_sync_wrote of k bytes) - and the source is
+ *          left positioned just after them (the file-type-sniffing usage)
  *   api  : f  ov_read_float(length = req schedule)   (path p: vorbis_synthesis_read(min(avail,req)))
  *          i  ov_read(..., length bytes, little endian, 16 bit, signed)          (paths s,n only)
  *          g  ov_read_filter(same format) with a stateless gain-0.5 filter       (paths s,n only)
@@ -38,7 +41,7 @@
 #define MAXNEG 8
 
 /* ------------------------------------------------------------------ scripted source */
-typedef struct { memio m; long cut[4]; int ncut; long cuthit[4]; long caphit; } dsrc;
+typedef struct { memio m; long cut[4]; int ncut; long cuthit[4]; long caphit; long initial; } dsrc;
 static void d_init(dsrc *d,const unsigned char *data,long len,long cap,const long *cut,int ncut){
   int i; memset(d,0,sizeof(*d)); mio_init(&d->m,data,len); d->m.cap=cap; d->ncut=ncut; for(i=0;i<ncut;i++)d->cut[i]=cut[i];
 }
@@ -171,6 +174,7 @@ static void pk_run(dsrc *d,rsched *rq,outst *o,long ask){
   ogg_sync_state oy; ogg_stream_state os; ogg_page og; ogg_packet op; vorbis_info vi; vorbis_comment vc; vorbis_dsp_state vd; vorbis_block vb;
   int sinit=0,hdr=0,init=0,hinit=0; long serial=-1; long guard=0;
   ogg_sync_init(&oy);
+  if(d->initial>0){ char *b=ogg_sync_buffer(&oy,d->initial); memcpy(b,d->m.data,d->initial); ogg_sync_wrote(&oy,d->initial); d->m.pos=d->initial; }
   while(1){
     int r=ogg_sync_pageout(&oy,&og);
     if(++guard>50000000){ if(!o->res[0])strcpy(o->res,"packet_loop_runaway"); break; }
@@ -253,7 +257,8 @@ static void vf_run(dsrc *d,int streaming,int ints,int filt,rsched *rq,outst *o){
   memset(&fs,0,sizeof(fs)); fs.rf=o->rf; fs.gain=(filt==2);
   static short ibuf[65536];
   cb.read_func=d_read; cb.seek_func=streaming?NULL:mio_seek; cb.close_func=mio_close; cb.tell_func=streaming?NULL:mio_tell;
-  rc=ov_open_callbacks(d,&vf,NULL,0,cb);
+  if(d->initial>0)d->m.pos=d->initial;   /* source sits just after the bytes already read */
+  rc=ov_open_callbacks(d,&vf,d->initial>0?(const char*)d->m.data:NULL,d->initial,cb);
   if(rc<0){ if(!o->res[0])snprintf(o->res,sizeof(o->res),"open:%d",rc); return; }
   if(!o->build){
     if(!streaming&&!ov_seekable(&vf)){ snprintf(o->res,sizeof(o->res),"not_seekable"); }
@@ -366,12 +371,13 @@ static void build_ref(rfile *rf){
 
 /* ------------------------------------------------------------------ one execution */
 typedef struct { char status[260]; char neg[200]; long E,R,hits,calls,backhop; uint64_t lg; int allcut; } result;
-static void run_one(rfile *rf,char path,char api,const char *req,long cap,const long *cut,int ncut,result *r){
+static void run_one(rfile *rf,char path,long initial,char api,const char *req,long cap,const long *cut,int ncut,result *r){
   dsrc d; rsched rq; outst o; int i; char *p;
   memset(r,0,sizeof(*r));
   if(rf->referr[0]){ snprintf(r->status,sizeof(r->status),"bad:%s",rf->referr); strcpy(r->neg,"neg=0"); return; }
   if(!rs_parse(&rq,req,rf->maxch)||(path=='p'&&api!='f')||(api!='f'&&api!='i'&&api!='g'&&api!='k')||(path!='s'&&path!='n'&&path!='p')){ strcpy(r->status,"BADCASE"); strcpy(r->neg,"neg=0"); return; }
-  d_init(&d,rf->data,rf->len,cap,cut,ncut);
+  if(initial<0||initial>rf->len){ strcpy(r->status,"BADCASE"); strcpy(r->neg,"neg=0"); return; }
+  d_init(&d,rf->data,rf->len,cap,cut,ncut); d.initial=initial;
   o_init(&o,rf,0,api=='f'?0:api=='g'?2:1);
   if(path=='p')pk_run(&d,&rq,&o,4096); else vf_run(&d,path=='n',api!='f',api=='g'?2:api=='k'?1:0,&rq,&o);
   o_finish(&o);
@@ -412,12 +418,12 @@ int main(int argc,char **argv){
   signal(SIGVTALRM,on_alarm);
   while(getline(&line,&lcap,cf)>0){
     char *sv,*tok; long idx,cap,cut[4]; int ncut=0,k; char path,api; char req[64]; rfile *rf=NULL; struct itimerval it; result r;
-    long lo=-1,hi=-1;
+    long lo=-1,hi=-1,initial=0;
     tok=strtok_r(line," \n",&sv); if(!tok)continue; idx=atol(tok); g_cur=idx;
     tok=strtok_r(NULL," \n",&sv); if(!tok){ printf("%ld BADCASE\n",idx); continue; }
     for(k=0;k<g_nf;k++)if(!strcmp(g_f[k].id,tok))rf=&g_f[k];
     if(!rf){ printf("%ld BADCASE nofile\n",idx); fflush(stdout); continue; }
-    tok=strtok_r(NULL," \n",&sv); path=tok?tok[0]:0;
+    tok=strtok_r(NULL," \n",&sv); path=tok?tok[0]:0; initial=(tok&&tok[1]=='@')?atol(tok+2):0;
     tok=strtok_r(NULL," \n",&sv); api=tok?tok[0]:0;
     tok=strtok_r(NULL," \n",&sv); strncpy(req,tok?tok:"",sizeof(req)-1); req[sizeof(req)-1]=0;
     tok=strtok_r(NULL," \n",&sv); cap=tok?atol(tok):0;
@@ -432,14 +438,14 @@ int main(int argc,char **argv){
     memset(&it,0,sizeof(it)); it.it_value.tv_sec=timeout; setitimer(ITIMER_VIRTUAL,&it,NULL);
     build_ref(rf);
     if(lo<0){
-      run_one(rf,path,api,req,cap,cut,ncut,&r);
+      run_one(rf,path,initial,api,req,cap,cut,ncut,&r);
       printf("%ld %s %s E=%ld R=%ld hits=%ld all=%d LG=%016llx C=%ld B=%ld RH=%s RIH=%s\n",idx,r.status,r.neg,r.E,r.R,r.hits,r.allcut,(unsigned long long)r.lg,r.calls,r.backhop,rf->rh,rf->rih);
     }else{
       /* row: one execution per value of the last cut */
       long b,n=0,nbad=0,firstbad=-1,both=0,D=0,nl=0; result first; uint64_t *lg=(uint64_t*)__real_malloc(sizeof(uint64_t)*(hi>lo?hi-lo:1));
       memset(&first,0,sizeof(first)); strcpy(first.status,"ok"); strcpy(first.neg,"neg=0");
       for(b=lo;b<hi;b++){
-        cut[ncut-1]=b; run_one(rf,path,api,req,cap,cut,ncut,&r); n++;
+        cut[ncut-1]=b; run_one(rf,path,initial,api,req,cap,cut,ncut,&r); n++;
         if(strcmp(r.status,"ok")){ if(!nbad){ first=r; firstbad=b; } nbad++; }
         if(r.allcut){ both++; lg[nl++]=r.lg; }
       }
